@@ -239,7 +239,11 @@ func protoNumberEncodeMethod(typ string, packed bool) string {
 func getExtensions(protoFile *protogen.File) func(*protogen.Message) []*protogen.Field {
 	// build a lookup of all extensions keyed by the extendee
 	extensionDict := make(map[protogen.GoIdent][]*protogen.Field)
-	for _, m := range protoFile.Messages {
+	// extensions can be declared at the file level or inside any (nested) message
+	for _, f := range protoFile.Extensions {
+		extensionDict[f.Extendee.GoIdent] = append(extensionDict[f.Extendee.GoIdent], f)
+	}
+	for _, m := range allMessages(protoFile)() {
 		for _, f := range m.Extensions {
 			extensionDict[f.Extendee.GoIdent] = append(extensionDict[f.Extendee.GoIdent], f)
 		}
